@@ -772,6 +772,17 @@ class FnTranslator:
 
     def st_Raise(self, s, env, ctx, cont, rest):
         ctx.escaped = True
+        exc = s.exc
+        args = []
+        if isinstance(exc, ast.Call):
+            args = list(exc.args) + [k.value for k in exc.keywords]
+            exc = exc.func
+        # the message arguments carry no behaviour we model, but they are evaluated: they must be pure
+        for a in args:
+            if self.tr_expr(a, env).binds:
+                self.refuse(s, 'argument of the raised exception may itself raise')
+        if isinstance(exc, ast.Name) and exc.id in env and env[exc.id].ty == ('named', 'Yaql.Py.Err'):
+            return ctx.raise_(env[exc.id].lean)          # `raise exception_cls(...)`: the class is a parameter
         return ctx.raise_(self.err_text(s))
 
     def st_Break(self, s, env, ctx, cont, rest):
@@ -1635,6 +1646,10 @@ class FnTranslator:
             key = self.coerce(idx, recv.ty[1], n)
             t = self.tmp()
             return E(t, recv.ty[2], binds + [(t, '(Yaql.Py.dictIndex %s %s)' % (recv.text, key.text))])
+        if recv.ty[0] == 'named' and isinstance(n.slice, ast.Constant) and isinstance(n.slice.value, str):
+            item = self.universes.get(recv.ty[1], {}).get('items', {}).get(n.slice.value)
+            if item is not None:          # a record held as a dict with constant string keys
+                return E(item[0].format(self=recv.text), T(item[1]), recv.binds)
         r = self.named_op('Index', [recv, idx], n)
         if r is not None:
             return r
@@ -1719,6 +1734,8 @@ class FnTranslator:
         # 1. a callable parameter / local
         if isinstance(f, ast.Name) and f.id in env:
             v = env[f.id]
+            if v.ty[0] == 'named' and 'call' in self.universes.get(v.ty[1], {}):
+                return self.call_prim(self.universes[v.ty[1]]['call'], n, env, recv=E(v.lean, v.ty))
             if v.ty[0] != 'fn':
                 self.refuse(n, 'call of a non-callable variable')
             if n.keywords or len(n.args) != len(v.ty[1]):
@@ -1748,6 +1765,18 @@ class FnTranslator:
         # 5. method on a typed receiver
         if isinstance(f, ast.Attribute):
             recv = self.tr_expr(f.value, env)
+            if recv.ty[0] == 'dict' and f.attr == 'get' and len(n.args) == 2 and not n.keywords:
+                key = self.coerce(self.tr_expr(n.args[0], env), recv.ty[1], n)
+                if not self.structural_eq(recv.ty[1]):
+                    self.refuse(n, 'dict.get on keys without structural equality')
+                dflt = self.coerce(self.tr_expr(n.args[1], env), recv.ty[2], n)
+                return E('(Yaql.Py.dictGetD %s %s %s)' % (recv.text, key.text, dflt.text), recv.ty[2],
+                         recv.binds + key.binds + dflt.binds)
+            if recv.ty == STR and f.attr in ('startswith', 'endswith') and len(n.args) == 1 and not n.keywords:
+                a0 = self.tr_expr(n.args[0], env)
+                if a0.ty == STR:
+                    fn = 'isPrefixOf' if f.attr == 'startswith' else 'isSuffixOf'
+                    return E('(List.%s %s %s)' % (fn, a0.text, recv.text), BOOL, recv.binds + a0.binds)
             kind = self.kind_of(recv.ty) if recv.ty else None
             prim = METHODS.get((recv.ty[0], f.attr))
             if prim is None and recv.ty[0] == 'named':
@@ -1898,6 +1927,16 @@ class FnTranslator:
         if a.ty != INT or b.ty != INT:
             self.refuse(n, 'min/max on types %s, %s' % (a.ty, b.ty))
         return E('(Yaql.Py.%s %s %s)' % (fn, a.text, b.text), INT, a.binds + b.binds)
+
+    def bi_callable(self, n, env):
+        e = self.one_arg(n, env, 'callable')
+        if e.ty[0] == 'named' and 'callable' in self.universes.get(e.ty[1], {}):
+            return E(self.universes[e.ty[1]]['callable'].format(e.text), BOOL, e.binds)
+        if e.ty[0] == 'fn':
+            return E('true', BOOL, e.binds)
+        if e.ty[0] in ('int', 'str', 'bool', 'list', 'dict', 'tup'):
+            return E('false', BOOL, e.binds)
+        self.refuse(n, 'callable() of a value of type %s' % (e.ty,))
 
     def bi_bool(self, n, env):
         e = self.one_arg(n, env, 'bool')
